@@ -231,6 +231,10 @@ pub struct UpState {
     /// forced behaviour for epilogues
     pub force: Option<UpForce>,
     pub ready_cost: bool,
+    /// concurrency limit of the adapter under test (0 = none) and whether it is an ordered one:
+    /// the limit oracles are evaluated at the very moment upstream hands out an item
+    pub limit: usize,
+    pub ordered: bool,
     /// the two kinds of futures the upstream can hand out (ItemGate / ItemReady slots of the menu)
     pub modes: [Mode; 2],
 }
@@ -376,6 +380,8 @@ impl World {
                 dropped: 0,
                 force: None,
                 ready_cost: true,
+                limit: 0,
+                ordered: false,
                 modes: [Mode::Gate, Mode::Ready],
             },
             closure_calls: Vec::new(),
@@ -1317,6 +1323,22 @@ impl<I: UpItem> Stream for Upstream<I> {
                             UpAns::ItemGate | UpAns::ItemGateFail => w.up.modes[0],
                             _ => w.up.modes[1],
                         };
+                        if w.up.limit >= 1 {
+                            // C09: unfinished futures at this instant (the new one included)
+                            let unfinished = w.live_ids.len() + 1;
+                            if unfinished > w.up.limit {
+                                let n = w.up.limit;
+                                w.violate("C09", "limit-exceeded-at-pull", format!("upstream was asked for another item while {} futures are unfinished (limit {})", unfinished - 1, n));
+                            }
+                            if w.up.ordered {
+                                // C16: pulled but not yet yielded at this instant (the new one included)
+                                let undelivered = w.children.iter().enumerate().filter(|(i, c)| c.accepted && !w.toks.iter().any(|t| t.id == *i as u32 && t.handed > 0)).count() + 1;
+                                if undelivered > w.up.limit {
+                                    let n = w.up.limit;
+                                    w.violate("C16", "backlog-exceeds-limit-at-pull", format!("upstream handed out an item while {} earlier items were pulled but not yet yielded (limit {})", undelivered - 1, n));
+                                }
+                            }
+                        }
                         let id = w.new_child(mode);
                         w.children[id as usize].fail = matches!(ans, UpAns::ItemGateFail | UpAns::ItemReadyFail);
                         w.children[id as usize].up_pos = w.up.next_item; // position in upstream order
